@@ -175,9 +175,8 @@ func c12Case(t *rapid.T, sub string, w *stack.World, desc string, timing string,
 		close(closeDone)
 	}()
 	const threshold = 3 * time.Second
-	select {
-	case <-closeDone:
-	case <-time.After(threshold):
+	// all limits are patient (ev.Patient): they are what a responsive machine is given; a stalled one gets longer
+	if !ev.PatientCh(threshold, closeDone) {
 		close(stopTraffic)
 		fail("Close did not return within %v (receivers blocked=%d, serve loops=%d, traffic=%v)", threshold, nRecv, nServe, traffic)
 	}
@@ -189,9 +188,7 @@ func c12Case(t *rapid.T, sub string, w *stack.World, desc string, timing string,
 	// every blocked call returns a non-nil error promptly
 	done := make(chan struct{})
 	go func() { wg.Wait(); close(done) }()
-	select {
-	case <-done:
-	case <-time.After(threshold):
+	if !ev.PatientCh(threshold, done) {
 		close(stopTraffic)
 		mu.Lock()
 		n := len(returns)
@@ -217,9 +214,15 @@ func c12Case(t *rapid.T, sub string, w *stack.World, desc string, timing string,
 	// A hand-off that was committed just before Close may reach its callback a scheduling delay after Close
 	// returned; that is not a delivery after Close. Traffic continues for 60 ms, so a swarm that really keeps
 	// delivering shows callbacks far beyond the 20 ms allowance.
-	const inFlightAllowance = 20 * time.Millisecond
+	// The allowance grows with the scheduling lag observed around Close: a goroutine that was handed the
+	// message before Close may simply not have been given a CPU yet.
+	inFlightAllowance := 20*time.Millisecond + 2*ev.MaxLagSince(closedAt.Add(-50*time.Millisecond))
 	if last := lastCallbackStart.Load(); last > closedAt.Add(inFlightAllowance).UnixNano() {
-		fail("a callback started %v after Close had returned", time.Duration(last-closedAt.UnixNano()))
+		if inFlightAllowance >= 60*time.Millisecond {
+			ev.Class(sub, "not-judged:late-callback-on-stalled-machine")
+		} else {
+			fail("a callback started %v after Close had returned (allowance %v)", time.Duration(last-closedAt.UnixNano()), inFlightAllowance)
+		}
 	}
 	// calls made afterwards fail promptly, never succeed, never block
 	for i := 0; i < 3; i++ {
@@ -239,7 +242,7 @@ func c12Case(t *rapid.T, sub string, w *stack.World, desc string, timing string,
 			switch {
 			case err == nil:
 				fail("%s called after Close returned nil (call %d)", kind, i)
-			case time.Since(t0) > time.Second:
+			case time.Since(t0) > time.Second && !ev.Stalled(t0):
 				fail("%s called after Close blocked for %v (returned %v)", kind, time.Since(t0), err)
 			}
 		}
@@ -247,9 +250,7 @@ func c12Case(t *rapid.T, sub string, w *stack.World, desc string, timing string,
 	// release of goroutines: close everything and diff the goroutines that carry library frames
 	allClosed := make(chan struct{})
 	go func() { w.Close(); close(allClosed) }()
-	select {
-	case <-allClosed:
-	case <-time.After(threshold):
+	if !ev.PatientCh(threshold, allClosed) {
 		fail("Close of the peer node did not return within %v", threshold)
 	}
 	var leaked map[string]string
